@@ -3,7 +3,7 @@ import json
 from vlib import core
 
 META = {
-    "disabled": True,
+    "disabled": False,
     "level": "model_checking",
     "level_text": "WdtWdl.tla (over the shared ChunkFile.tla framing machine) models the WDT and WDL writers and readers chunk by chunk, the version "
                   "rules (should_have_chunk, detect_version), the MAOF offset table, convert_wdt / convert_wdl_file and the tile<->world maps in exact "
